@@ -101,6 +101,8 @@ WHITELIST = [
     ("ordered_inner_map_result_size", ["arr", "arr"]),
     ("compare_arrays", ["arr", "arr"]),
     ("safe_map_values", ["arr", "arr", "barr", "opt_int"]),
+    ("ordered_inner_map_left_unique", ["arr", "arr", "arr", "arr"]),
+    ("ordered_inner_map", ["arr", "arr", "arr", "arr"]),
 ]
 
 LEAN_T = {"int": "Int", "bool": "Bool", "arr": "List Int", "barr": "List Bool", "opt_arr": "Option (List Int)",
